@@ -740,7 +740,7 @@ theorem shadow_expireAll (b : Bus) : Shadow k (expireAll b) (expireAll (shade k 
     the step sends the clients what the same step sends on the bus whose monitors are idle ordinary connections, and leaves
     the same state up to shading. -/
 theorem step_sim (tbl : List IfaceRow) (b : Bus) (hids : (b.conns.map (·.id)).Nodup) (hcl : MonClean b)
-    (hsw : ∀ c m, Actor b c → QuietX c (finish (toDriver tbl { bus := b } c m) c m).bus) (ev : Ev) :
+    (hsw : ∀ c m x, b.conn? c = some x → x.monitor = false → QuietX c (finish (toDriver tbl { bus := b } c m) c m).bus) (ev : Ev) :
     Sim none (step tbl b ev) (step tbl (shade none b) (shadowEv b ev)) := by
   cases ev with
   | connect c uid gids canFd =>
@@ -782,7 +782,7 @@ theorem step_sim (tbl : List IfaceRow) (b : Bus) (hids : (b.conns.map (·.id)).N
           exact (shadow_dropConn b hcl c).sim
         | false =>
           simp only [shadowEv, hx, hm, Bool.false_and, Bool.false_eq_true, if_false, step]
-          exact dispatch_sim_actor tbl b hids hcl c x m0 hx hm (fun m => hsw c m (actor_of_conn hids hx hm))
+          exact dispatch_sim_actor tbl b hids hcl c x m0 hx hm (fun m => hsw c m x hx hm)
   | invalid c =>
     simp only [shadowEv, step]
     rw [conn?_shade]
